@@ -460,10 +460,11 @@ def run(ctx):
     ctx.guarded('C11-D5', 'json@effects', d5_effects, ctx, js)
     ctx.guarded('C11-D6', 'json@transports', d6_transports, ctx, js)
     ctx.guarded('C11-D6', 'json@forwarding', d7_forwarding, ctx, js)
-    from .. import unusedparams
-    ctx.rule('C11-D7', 'every accepted option is read (no silently ignored parameter)')
+    from .. import unusedparams, leakedloop
+    ctx.rule('C11-D7', 'every accepted option is read (no silently ignored parameter); no loop variable read after its loop')
     for mn_ in ('input.json', 'input.pandas', 'misc'):
         ctx.guarded('C11-D7', mn_ + '@parameters', unusedparams.check, ctx, 'C11-D7', ctx.repo.mod(mn_))
+        ctx.guarded('C11-D7', mn_ + '@loop-variables', leakedloop.check, ctx, 'C11-D7', ctx.repo.mod(mn_))
 
     from .. import samplerule
     ctx.guarded('C11-D4', 'json@samples', samplerule.check, ctx, 'C11-D4', js)
